@@ -684,10 +684,33 @@ func tickAt(r *Result, i int) int64 {
 // ---------------------------------------------------------------------------
 // C07
 
+// genC07Default is the all-default pairing: a hash parser and a Decoder whose
+// configurations leave WindowSize zero (8 MiB), the decoder with a lone
+// BufferSize between 8 and 16 MiB or none; the input is a random record, several
+// MiB of zeros and the record again, so that the parser emits a match several
+// MiB back (the zeros leave the record's hash entries alone).
+func genC07Default(r *RNG) *Trace {
+	spec := ParserSpec{Type: r.pickStr("HP", "BHP", "DHP", "BDHP"), Target: "wrap"}
+	d := DecoderSpec{Target: "decoder", BufferSize: r.Pick(0, 0, 9<<20, 12<<20, 8<<20+1, 16<<20-1)}
+	rec := genInput(r, r.Pick(4<<10, 64<<10), "iid256")
+	gap := r.Range(4<<20+1, 8<<20-len(rec)-1024)
+	in := make([]byte, 0, 2*len(rec)+gap+16)
+	in = append(in, rec...)
+	in = append(in, make([]byte, gap)...)
+	in = append(in, rec...)
+	in = append(in, genInput(r, 16, "iid4")...)
+	t := &Trace{World: "pipe", P: &spec, D: &d, Input: in, Ops: []Op{{K: "Parse"}}}
+	t.Note = fmt.Sprintf("default-geometry gap=%d", gap)
+	return t
+}
+
 func genC07(r *RNG, tier string, run int) *Trace {
+	if run%2003 == 7 {
+		return genC07Default(r)
+	}
 	if run%4 == 3 {
 		// synthetic well-formed streams straight into a Decoder
-		g := dgen{target: "decoder", nOps: 25, sizes: "fit", readBias: 3, resetW: 0}
+		g := dgen{target: "decoder", nOps: 25, sizes: "fit", readBias: 3, resetW: 1}
 		if run%8 == 7 {
 			g.sizes = "any" // oversize items: known-finding territory
 		}
@@ -738,6 +761,11 @@ func genC07(r *RNG, tier string, run int) *Trace {
 	}
 	spec.Target = "wrap"
 	spec.Plan = genRPlan(r, 100, planOpts{chunk: r.Chance(0.5)})
+	if class == "medium" && spec.ShrinkSize > spec.BufferSize/2 {
+		// a refill of one byte at a time re-bases the whole table for every
+		// byte: kept for the tiny and small classes only
+		spec.ShrinkSize = spec.BufferSize / 2
+	}
 	bc := spec.defaults()
 	n := inputLenFor(r, bc.BufferSize, class)
 	if (typ == "GSAP" || typ == "OSAP") && n > 4000 {
